@@ -6,6 +6,129 @@ use bed_utils::verif_hooks::{Interval, Lapper};
 
 pub type Iv = Interval<u64, u64>;
 
+/// coordinate types the index is instantiated with (`Lapper<I, T>` is generic over `I: PrimInt`)
+pub trait Coord: num_traits::PrimInt + serde::Serialize + serde::de::DeserializeOwned + std::fmt::Debug + Send + Sync + 'static {
+    const MIN_: i128; const MAX_: i128;
+    fn of(x: i128) -> Self;
+    fn to(self) -> i128;
+}
+macro_rules! coord { ($($t:ty),*) => { $(impl Coord for $t { const MIN_: i128 = <$t>::MIN as i128; const MAX_: i128 = <$t>::MAX as i128; fn of(x: i128) -> Self { <$t>::try_from(x).expect("coordinate out of the type's range") } fn to(self) -> i128 { self as i128 } })* }; }
+coord!(u8, u16, u32, u64, usize, i8, i16, i32, i64, isize);
+
+/// type flavours: 0 u64 (as stored by the library's own maps), then i64, i32, i8, u8, u16, u32, i16, usize, isize
+pub const N_LTYPES: u64 = 10;
+fn bounds(ty: u64) -> (i128, i128) {
+    match ty { 1 => (i64::MIN_, i64::MAX_), 2 => (i32::MIN_, i32::MAX_), 3 => (i8::MIN_, i8::MAX_), 4 => (u8::MIN_, u8::MAX_), 5 => (u16::MIN_, u16::MAX_),
+               6 => (u32::MIN_, u32::MAX_), 7 => (i16::MIN_, i16::MAX_), 8 => (usize::MIN_, usize::MAX_), 9 => (isize::MIN_, isize::MAX_), _ => (0, u64::MAX as i128) }
+}
+/// The offset under which a case fits the coordinate type `ty`, if it does: every coordinate (of the intervals and of the
+/// queries) is representable; `start - max_len` does not leave a SIGNED type at its lower end (the library's
+/// `checked_sub(..).unwrap_or(zero)` idiom is written for unsigned underflow); every length, the sum of all lengths (cov,
+/// union) and the number of intervals (a depth) are representable. Signed types get the lowest possible placement, so
+/// that the coordinates straddle zero and gaps wider than `I::MAX` occur; unsigned types are shifted down to zero.
+pub fn type_offset(ty: u64, intervals: &[(u64, u64)], other_coords: &[u64]) -> Option<i128> { type_offset_at(ty, intervals, other_coords, true) }
+/// length of the longest block of the canonical cover (book-ended intervals fused): no stored interval, merged or not, is longer
+fn longest_block(intervals: &[(u64, u64)]) -> u64 {
+    let mut v: Vec<(u64, u64)> = intervals.to_vec();
+    v.sort();
+    let mut best = 0u64;
+    let mut cur: Option<(u64, u64)> = None;
+    for (s, e) in v {
+        cur = match cur { Some((a, b)) if s <= b => Some((a, b.max(e))), Some((a, b)) => { best = best.max(b - a); let _ = a; Some((s, e.max(s))) } None => Some((s, e.max(s))) };
+    }
+    if let Some((a, b)) = cur { best = best.max(b - a); }
+    best
+}
+/// `negative`: signed types are placed at their lower end (coordinates below zero); otherwise at zero
+pub fn type_offset_at(ty: u64, intervals: &[(u64, u64)], other_coords: &[u64], negative: bool) -> Option<i128> {
+    if ty == 0 { return Some(0); }
+    let (min, max) = bounds(ty);
+    let coords = || intervals.iter().flat_map(|x| [x.0, x.1]).chain(other_coords.iter().copied());
+    let lo = coords().min().unwrap_or(0) as i128;
+    let hi = coords().max().unwrap_or(0) as i128;
+    // (a merge makes stored intervals as long as a block of the cover: that is the `max_len` the margin must hold)
+    let maxlen = longest_block(intervals) as i128;
+    let sumlen: i128 = intervals.iter().map(|x| x.1.saturating_sub(x.0) as i128).sum();
+    let off = if min < 0 && negative { min + maxlen + 1 - lo } else { -lo };
+    if hi + off + 1 > max || sumlen > max || intervals.len() as i128 > max { return None; }
+    Some(off)
+}
+
+/// A `Lapper<I, u64>` for one of the coordinate types, with an interface in the case's own (u64) coordinates
+pub enum AnyLapper { U64(Lapper<u64, u64>, i128), I64(Lapper<i64, u64>, i128), I32(Lapper<i32, u64>, i128), I8(Lapper<i8, u64>, i128), U8(Lapper<u8, u64>, i128),
+    U16(Lapper<u16, u64>, i128), U32(Lapper<u32, u64>, i128), I16(Lapper<i16, u64>, i128), Usize(Lapper<usize, u64>, i128), Isize(Lapper<isize, u64>, i128) }
+macro_rules! any_lapper {
+    ($self:expr, $l:ident, $off:ident, $I:ident, $body:expr) => {
+        match $self {
+            AnyLapper::U64($l, $off) => { #[allow(dead_code)] type $I = u64; $body } AnyLapper::I64($l, $off) => { #[allow(dead_code)] type $I = i64; $body }
+            AnyLapper::I32($l, $off) => { #[allow(dead_code)] type $I = i32; $body } AnyLapper::I8($l, $off) => { #[allow(dead_code)] type $I = i8; $body }
+            AnyLapper::U8($l, $off) => { #[allow(dead_code)] type $I = u8; $body } AnyLapper::U16($l, $off) => { #[allow(dead_code)] type $I = u16; $body }
+            AnyLapper::U32($l, $off) => { #[allow(dead_code)] type $I = u32; $body } AnyLapper::I16($l, $off) => { #[allow(dead_code)] type $I = i16; $body }
+            AnyLapper::Usize($l, $off) => { #[allow(dead_code)] type $I = usize; $body } AnyLapper::Isize($l, $off) => { #[allow(dead_code)] type $I = isize; $body }
+        }
+    };
+}
+fn back<I: Coord>(x: I, off: i128) -> u64 { (x.to() - off) as u64 }
+fn ivs_back<'a, I: Coord>(it: impl Iterator<Item = &'a Interval<I, u64>>, off: i128) -> Vec<Iv> {
+    drain_mode(it, next_mode()).into_iter().map(|x| Iv { start: back(x.start, off), stop: back(x.stop, off), val: x.val }).collect()
+}
+impl AnyLapper {
+    /// the history over the coordinate type of flavour `ty` (u64 when the case does not fit that type)
+    pub fn build(h: &Hist, ty: u64, other_coords: &[u64]) -> AnyLapper { Self::build_with(h, ty, type_offset(ty, &h.all_intervals(), other_coords)) }
+    /// signed types placed at zero (for `depth`, whose iterator uses the coordinate 0 as its "not started" marker)
+    pub fn build_nonneg(h: &Hist, ty: u64, other_coords: &[u64]) -> AnyLapper { Self::build_with(h, ty, type_offset_at(ty, &h.all_intervals(), other_coords, false)) }
+    pub fn build_with(h: &Hist, ty: u64, off: Option<i128>) -> AnyLapper {
+        let Some(off) = off else { return AnyLapper::U64(h.build_t::<u64>(0), 0) };
+        match ty {
+            1 => AnyLapper::I64(h.build_t(off), off), 2 => AnyLapper::I32(h.build_t(off), off), 3 => AnyLapper::I8(h.build_t(off), off), 4 => AnyLapper::U8(h.build_t(off), off),
+            5 => AnyLapper::U16(h.build_t(off), off), 6 => AnyLapper::U32(h.build_t(off), off), 7 => AnyLapper::I16(h.build_t(off), off), 8 => AnyLapper::Usize(h.build_t(off), off),
+            9 => AnyLapper::Isize(h.build_t(off), off), _ => AnyLapper::U64(h.build_t(0), 0),
+        }
+    }
+    pub fn find(&self, s: u64, e: u64) -> Vec<Iv> { any_lapper!(self, l, off, I, ivs_back(l.find(I::of(s as i128 + *off), I::of(e as i128 + *off)), *off)) }
+    pub fn seek(&self, s: u64, e: u64, cursor: &mut usize) -> Vec<Iv> { any_lapper!(self, l, off, I, ivs_back(l.seek(I::of(s as i128 + *off), I::of(e as i128 + *off), cursor), *off)) }
+    pub fn count(&self, s: u64, e: u64) -> usize { any_lapper!(self, l, off, I, l.count(I::of(s as i128 + *off), I::of(e as i128 + *off))) }
+    pub fn iter(&self) -> Vec<Iv> { any_lapper!(self, l, off, I, ivs_back(l.iter(), *off)) }
+    pub fn cov(&self) -> u64 { any_lapper!(self, l, _off, I, l.cov().to() as u64) }
+    pub fn set_cov(&mut self) { any_lapper!(self, l, _off, I, { l.set_cov(); }) }
+    pub fn merge_overlaps(&mut self) { any_lapper!(self, l, _off, I, l.merge_overlaps()) }
+    pub fn insert(&mut self, iv: Iv) { any_lapper!(self, l, off, I, l.insert(Interval { start: I::of(iv.start as i128 + *off), stop: I::of(iv.stop as i128 + *off), val: iv.val })) }
+    pub fn depth(&self) -> Vec<Iv> {
+        any_lapper!(self, l, off, I, drain_mode(l.depth(), next_mode()).into_iter().map(|x| Iv { start: back(x.start, *off), stop: back(x.stop, *off), val: x.val.to() as u64 }).collect())
+    }
+    pub fn duplicate(&self) -> AnyLapper {
+        match self {
+            AnyLapper::U64(l, o) => AnyLapper::U64(l.clone(), *o), AnyLapper::I64(l, o) => AnyLapper::I64(l.clone(), *o), AnyLapper::I32(l, o) => AnyLapper::I32(l.clone(), *o),
+            AnyLapper::I8(l, o) => AnyLapper::I8(l.clone(), *o), AnyLapper::U8(l, o) => AnyLapper::U8(l.clone(), *o), AnyLapper::U16(l, o) => AnyLapper::U16(l.clone(), *o),
+            AnyLapper::U32(l, o) => AnyLapper::U32(l.clone(), *o), AnyLapper::I16(l, o) => AnyLapper::I16(l.clone(), *o), AnyLapper::Usize(l, o) => AnyLapper::Usize(l.clone(), *o),
+            AnyLapper::Isize(l, o) => AnyLapper::Isize(l.clone(), *o),
+        }
+    }
+    /// (union, intersect) of two sets built over the same coordinate type with the same offset
+    pub fn union_and_intersect(&self, other: &AnyLapper) -> (u64, u64) {
+        macro_rules! pair { ($($v:ident),*) => { match (self, other) { $((AnyLapper::$v(a, _), AnyLapper::$v(b, _)) => { let (u, i) = a.union_and_intersect(b); (u.to() as u64, i.to() as u64) })* _ => panic!("harness: two sets over different coordinate types") } }; }
+        pair!(U64, I64, I32, I8, U8, U16, U32, I16, Usize, Isize)
+    }
+    pub fn union(&self, other: &AnyLapper) -> u64 {
+        macro_rules! pair { ($($v:ident),*) => { match (self, other) { $((AnyLapper::$v(a, _), AnyLapper::$v(b, _)) => a.union(b).to() as u64,)* _ => panic!("harness: two sets over different coordinate types") } }; }
+        pair!(U64, I64, I32, I8, U8, U16, U32, I16, Usize, Isize)
+    }
+    pub fn intersect(&self, other: &AnyLapper) -> u64 {
+        macro_rules! pair { ($($v:ident),*) => { match (self, other) { $((AnyLapper::$v(a, _), AnyLapper::$v(b, _)) => a.intersect(b).to() as u64,)* _ => panic!("harness: two sets over different coordinate types") } }; }
+        pair!(U64, I64, I32, I8, U8, U16, U32, I16, Usize, Isize)
+    }
+}
+/// a random coordinate-type flavour for a Lapper case (u64 half of the time)
+pub fn gen_ltype(rng: &mut Rng) -> u64 { if rng.chance(1, 2) { 0 } else { rng.range(1, N_LTYPES - 1) } }
+/// for a narrow flavour: a far-away interval, so that the set spans more than half of the type's range (two runs further
+/// apart than `I::MAX` of the signed types)
+pub fn spread_for_type(rng: &mut Rng, h: &mut Hist, ty: u64, zero_len_ok: bool) {
+    let far: u64 = match ty { 3 | 4 => 150 + rng.below(60), 5 | 7 => 40_000 + rng.below(20_000), 2 | 6 => (1u64 << 31) + 1000 + rng.below(1 << 20), 1 | 9 => (1u64 << 63) + 1000 + rng.below(1 << 40), _ => return };
+    let lo = h.min_start();
+    let len = if zero_len_ok { rng.below(6) } else { rng.range(1, 6) };
+    if let Some(s) = lo.checked_add(far) { if let Some(e) = s.checked_add(len) { h.init.push((s, e, 7070)); } }
+}
+
 #[derive(Clone, Debug, PartialEq)]
 pub enum Op { Insert(u64, u64, u64), Merge, SetCov }
 
@@ -35,11 +158,14 @@ impl Hist {
         })?;
         Some(Hist { init, ops })
     }
-    pub fn build(&self) -> Lapper<u64, u64> {
-        let mut l = Lapper::new(self.init.iter().map(|(s, e, v)| Iv { start: *s, stop: *e, val: *v }).collect());
+    pub fn build(&self) -> Lapper<u64, u64> { self.build_t::<u64>(0) }
+    /// the same history over the coordinate type `I`: every coordinate x is stored as `x + off`
+    pub fn build_t<I: Coord>(&self, off: i128) -> Lapper<I, u64> {
+        let cv = |x: u64| I::of(x as i128 + off);
+        let mut l: Lapper<I, u64> = Lapper::new(self.init.iter().map(|(s, e, v)| Interval { start: cv(*s), stop: cv(*e), val: *v }).collect());
         // "however it was built": a copy (Clone) or a serde round trip (bincode) of the set answers exactly like the set
         // itself; the places where one is taken are a function of the history (so that a case replays)
-        fn identity(l: Lapper<u64, u64>, k: usize) -> Lapper<u64, u64> {
+        fn identity<I: Coord>(l: Lapper<I, u64>, k: usize) -> Lapper<I, u64> {
             match k % 7 {
                 3 => l.clone(),
                 5 => bincode::deserialize(&bincode::serialize(&l).expect("serialize Lapper")).expect("deserialize Lapper"),
@@ -49,7 +175,7 @@ impl Hist {
         l = identity(l, self.init.len() * 5 + 3 * self.ops.len());
         for (i, o) in self.ops.iter().enumerate() {
             match o {
-                Op::Insert(s, e, v) => l.insert(Iv { start: *s, stop: *e, val: *v }),
+                Op::Insert(s, e, v) => l.insert(Interval { start: cv(*s), stop: cv(*e), val: *v }),
                 Op::Merge => l.merge_overlaps(),
                 Op::SetCov => { l.set_cov(); }
             }
@@ -57,7 +183,8 @@ impl Hist {
             // read-only calls in the middle of a history (results discarded): they take &self and must not
             // influence any later answer
             if (i + self.init.len()) % 2 == 0 {
-                let (qs, qe) = match o { Op::Insert(s, e, _) => (*s, e.saturating_add(1)), _ => (0, 1) };
+                let (qs, qe) = match o { Op::Insert(s, e, _) => (cv(*s), cv(*e)), _ => match self.all_intervals().first() { Some(x) => (cv(x.0), cv(x.0)), None => continue } };
+                let qe = qe.saturating_add(I::one());
                 let _ = l.find(qs, qe).count();
                 if !l.intervals.iter().any(|x| x.start > x.stop) { let _ = l.count(qs, qe); }
                 let mut cur = 0usize;
@@ -67,7 +194,7 @@ impl Hist {
                     let _ = l.cov();
                     let _ = l.union_and_intersect(&l);
                     let mut d = l.depth();
-                    if l.intervals.iter().all(|x| x.stop - x.start < 5_000) { let _ = d.next(); }
+                    if l.intervals.iter().all(|x| (x.stop - x.start).to() < 5_000) { let _ = d.next(); }
                 }
             }
         }
